@@ -125,9 +125,19 @@ theorem debug_only_provider_errors {σ : Type} (H : Bytes → Bytes) (cfg : Conf
     · rw [hd] at h
       cases h
 
+/-- The `Debug` and `Display` renderings of every key type, and the `Debug` rendering of the
+provider's response that carries a signing key, are the same text whatever the key bytes are. -/
+theorem key_renderings_constant (k : KeyKind) (key key' : Bytes) (p q : String) :
+    renderKeyDebug k key = renderKeyDebug k key' ∧ renderKeyDisplay k key = renderKeyDisplay k key' ∧
+    renderResponseDebug p q key = renderResponseDebug p q key' := by
+  exact ⟨rfl, rfl, rfl⟩
+
+example : renderKeyDebug .secret b!"wJalrXUtnFEMI" = "KSecretKey" := rfl
+
 end SigV4.C17
 
 #print axioms SigV4.C17.refusal_noninterference
 #print axioms SigV4.C17.calls_and_logs_independent_of_key
 #print axioms SigV4.C17.mismatch_kind_fixed
 #print axioms SigV4.C17.debug_only_provider_errors
+#print axioms SigV4.C17.key_renderings_constant
